@@ -555,6 +555,8 @@ def all_depth1():
 
 def rand_tree(rng, depth):
     if depth == 0 or rng.random() < 0.15:
+        if rng.random() < 0.08:
+            return ("sym", "c")                 # a third variable (bound once, to 2)
         return rng.choice(ATOMS[:4]) if rng.random() < 0.85 else rng.choice(ATOMS)
     if rng.random() < 0.4:
         u = rng.choice(UNARY)
@@ -599,7 +601,7 @@ def program(tree, pos, history):
         stmt = "1,(" + e + ")"
     else:
         stmt = "(" + e + "),," + e if False else "(" + e + "),(" + e + ")"
-    prog = list(pre)
+    prog = [("c::2", False)] + list(pre)
     for a, b in history:
         if a is not None:
             prog.append(("a::" + a, False))
@@ -866,6 +868,8 @@ def classify_pair(op, normal, stub):
     C05-divide-numpy-zero: a division by zero is decided by the representation of the scalars involved
       (Python: ZeroDivisionError / :undefined, NumPy: inf/nan), and the two paths produce different
       representations: one side :undefined or an error, the other contains inf/nan, subexpression rooted at %."""
+    if op == "scan" and normal != "EXC" and stub == "(l " + normal + ")":
+        return "C05-torch-scan-0d"
     if op == "^":
         return "C05-power-kind"
     if op == "%" and ((stub in ("(u 1)", "EXC") and _has_infnan(normal)) or (normal in ("(u 1)", "EXC") and _has_infnan(stub))):
@@ -918,7 +922,7 @@ def attribute_all(items, backend):
                 continue
             if any(u is not t and u in differing for u in subtrees(t)):
                 continue
-            op = t[1] if t[0] == "dy" else None
+            op = t[1] if t[0] == "dy" else ("scan" if t[0] == "adv" and t[2] == "\\" and backend == "torch" else None)
             # a variable-free subexpression is compiled only as part of its parent: a ^ inside it belongs to t
             if any(u is not t and u[0] == "dy" and u[1] == "^" and not has_var(u) for u in subtrees(t)):
                 op = "^"
@@ -966,7 +970,7 @@ def check_diff(chk, rng, tier, backend, scale=1):
                     break
             elif stmt.startswith("a::") or stmt.startswith("b::"):
                 cur[stmt[0]] = stmt
-        differing.append((t, pos, prog, a, b, [cur[x] for x in sorted(cur)]))
+        differing.append((t, pos, prog, a, b, ["c::2"] + [cur[x] for x in sorted(cur)]))
     bad = None
     verdicts = attribute_all([(d[0], d[5]) for d in differing], backend)
     for (t, pos, prog, a, b, binds), (ids, why) in zip(differing, verdicts):
